@@ -37,7 +37,8 @@ func ValueOf(query *Query, current Map, any any) (any, error) {
 			// the bare back-navigation marker: the enclosing document as it
 			// is now, not the live scope (which is about to hold the rows
 			// that refer to it), without pending CTEs and its own marker
-			if scope, ok := rs.(Map); ok && string(value) == "<-" {
+			// (also when reached through a path or spelled quoted: `<-.<-`, '<-')
+			if scope, ok := rs.(Map); ok && strings.HasSuffix(strings.ReplaceAll(string(value), "'", ""), "<-") {
 				snapshot := make(Map, len(scope))
 				for key, value := range scope {
 					if _, isCte := value.(CteEvaluation); isCte || key == "<-" {
